@@ -19,7 +19,11 @@ type GT struct {
 	// Sub: array [elem]; map [value]; union/inter branches; struct field types
 	Sub []GT `json:"sub,omitempty"`
 	F   []GF `json:"f,omitempty"`
-	// Disc (union): "" none | "prop" discriminator property only | "mapping" property + explicit mapping
+	// Disc (union): "" none | "prop" discriminator property only | "mapping"
+	// property + explicit mapping of every branch, targets written as
+	// `#/components/schemas/X` | "bare" the same with bare schema names |
+	// "partial" bare names, the last branch left to the implicit rule |
+	// "partial-ref" `#/...` targets, the last branch left to the implicit rule
 	Disc string `json:"disc,omitempty"`
 }
 
@@ -181,13 +185,9 @@ func (t GT) Reductions() []GT {
 		}
 	}
 	// reset attributes
-	if t.Disc == "mapping" {
+	if next, ok := map[string]string{"partial-ref": "mapping", "partial": "bare", "bare": "prop", "mapping": "prop", "prop": ""}[t.Disc]; ok {
 		c := t
-		c.Disc = "prop"
-		out = append(out, c)
-	} else if t.Disc == "prop" {
-		c := t
-		c.Disc = ""
+		c.Disc = next
 		out = append(out, c)
 	}
 	if t.K == "struct" {
@@ -353,7 +353,7 @@ func GSchemas(thorough bool) []GSchema {
 	sp("rec/mutual", root(gStruct("b?", gRef("B"))), GObj{Name: "B", T: gStruct("a?", gRef("Root"))})
 	sp("rec/nested", root(gStruct("in?", gStruct("again?", gRef("Root")))))
 	// discriminated unions
-	for _, disc := range []string{"", "prop", "mapping"} {
+	for _, disc := range []string{"", "prop", "mapping", "bare", "partial", "partial-ref"} {
 		u2 := GT{K: "union", Sub: []GT{gRef("S"), gRef("T")}, Disc: disc}
 		u3 := GT{K: "union", Sub: []GT{gRef("S"), gRef("T"), gRef("V")}, Disc: disc}
 		d := "/" + disc
@@ -368,6 +368,11 @@ func GSchemas(thorough bool) []GSchema {
 		sp("union2/array"+d, root(gStruct("u", gArr(u2))))
 		sp("union2/map"+d, root(gStruct("u?", gMap(u2))))
 		sp("union2/nested"+d, root(gStruct("in", gStruct("u", u2))))
+		// branches with dependencies of their own (only reachable through the branch)
+		u3dep := GT{K: "union", Sub: []GT{gRef("S"), gRef("Dep1"), gRef("Dep2")}, Disc: disc}
+		sp("union3/deps"+d, root(gStruct("u", u3dep)),
+			GObj{Name: "Dep1", T: gStruct("kind", gConst("d1"), "c?", gRef("E"))},
+			GObj{Name: "Dep2", T: gStruct("kind", gConst("d2"), "c?", gRef("A"))})
 	}
 	// unions of anonymous structs (named by DisjunctionOfAnonymousStructsToExplicit)
 	sp("union-anon/plain", root(gStruct("u", gUnion(gStruct("a", gStr()), gStruct("b", gInt())))))
@@ -486,6 +491,18 @@ func hasDisc(t GT, d string) bool {
 	return false
 }
 
+func hasAnyDisc(t GT) bool {
+	if t.K == "union" && t.Disc != "" {
+		return true
+	}
+	for _, s := range t.Sub {
+		if hasAnyDisc(s) {
+			return true
+		}
+	}
+	return false
+}
+
 func (s GSchema) check(format string) error {
 	for _, o := range s.Objs {
 		if o.File != "" && format != "openapi" {
@@ -497,7 +514,7 @@ func (s GSchema) check(format string) error {
 		if hasKind(o.T, "constref") && format != "cue" {
 			return unsupported{"constant reference (Enum & \"value\")"}
 		}
-		if (hasDisc(o.T, "prop") || hasDisc(o.T, "mapping")) && format != "openapi" {
+		if hasAnyDisc(o.T) && format != "openapi" {
 			return unsupported{"explicit discriminator object"}
 		}
 		if strings.Contains(o.Name, "/") && format == "openapi" {
@@ -559,11 +576,16 @@ func jsonTree(t GT, format string, refPrefix string) any {
 		m := map[string]any{key: bs}
 		if t.Disc != "" {
 			d := map[string]any{"propertyName": "kind"}
-			if t.Disc == "mapping" {
+			if t.Disc != "prop" {
 				mp := map[string]any{}
-				for _, s := range t.Sub {
-					if s.K == "ref" {
+				for i, s := range t.Sub {
+					if s.K != "ref" || (strings.HasPrefix(t.Disc, "partial") && i == len(t.Sub)-1) {
+						continue
+					}
+					if t.Disc == "mapping" || t.Disc == "partial-ref" {
 						mp[strings.ToLower(s.A)] = refPrefix + s.A
+					} else {
+						mp[strings.ToLower(s.A)] = s.A
 					}
 				}
 				d["mapping"] = mp
